@@ -1227,7 +1227,10 @@ class Interp:
         return m(node, env)
 
     def truth(self, v):
-        t = truthy(v) if is_sym(v) else self._concrete_truth(v)
+        if z3.is_expr(v) and z3.is_bool(v):
+            t = v
+        else:
+            t = truthy(v) if is_sym(v) else self._concrete_truth(v)
         if isinstance(t, bool):
             return t
         t = z3.simplify(t)
